@@ -250,7 +250,7 @@ func (o OrderedCollection) MarshalJSON() ([]byte, error) {
 	if o.Last != nil {
 		notEmpty = JSONWriteItemProp(&b, "last", o.Last) || notEmpty
 	}
-	notEmpty = JSONWriteIntProp(&b, "totalItems", int64(o.TotalItems)) || notEmpty
+	notEmpty = JSONWriteUintProp(&b, "totalItems", uint64(o.TotalItems)) || notEmpty
 	if o.OrderedItems != nil {
 		notEmpty = JSONWriteItemCollectionProp(&b, "orderedItems", o.OrderedItems, false) || notEmpty
 	}
